@@ -33,7 +33,9 @@ def build_network(edges, res, margin):
         computeAbsCurv(tr)
         e = Edge(j + 1, tr)
         e.orientation = Edge.DOUBLE_SENS
-        e.weight = tr.length()
+        # the routing cost of an edge is its length for half of the networks and a travel time (another unit) for the others:
+        # where the matched point is and how far it is from the end nodes ALONG THE EDGE does not depend on it
+        e.weight = tr.length() if (len(edges) + len(edges[0])) % 2 else 2.5 * tr.length() + 1.0
         a, b = tuple(g[0]), tuple(g[-1])
         for p in (a, b):
             if p not in nid:
